@@ -147,7 +147,7 @@ CHECKS = {
     'C09': dict(
         level='proof',
         technique='deductive verification of the real search functions with pyvc + z3: _find_types / find_subtypes / find_supertypes / to_type in full mode (loop invariant over the pool walk, postconditions over the returned list, C06\'s contract of is_subtype at the guarding call), find_irrelevant_type in slice mode with obligations at every return statement and at the two search calls; bounded evaluation of the same statement against an independent declarative relation for what the proof leaves open (_construct_related_types, completeness of the searches, re-instantiation)',
-        text=("Proved for every pool, query and flag combination (63 obligations): every element of a subtype-search result is -- or, for a "
+        text=("Proved for every pool, query and flag combination (67 obligations): every element of a subtype-search result is -- or, for a "
               "bare generic class when concrete types are requested, is an instantiation of -- a type for which the type system "
               "answered is_subtype(T) (hence a subtype in the declarative relation by C06's proved contract), or T itself exactly "
               "when asked for, or the ONE element built by _construct_related_types (ghost Related: outside the proof); no "
